@@ -18,7 +18,7 @@ LEVEL = "model_checking"
 RULE = ("BFS from every start object (class in {BaseSamples, Samples, SMCSamples} x {numpy,torch,jax} x {float32,float64} x "
         "8 subsets of the optional fields x parameter names stored in non-lexicographic order (b, a) [and (a, b) for numpy], 4 tagged rows) over the action alphabet {int index 0/-1, 3 slices, 2 boolean masks, "
         "2 index arrays (reversal, repeats), partition at each cut + concatenate, pickle round trip, to_dict->from_dict flat/"
-        "nested} to depth 3 (quick) / 4 (thorough); abstract state = (class, namespace, dtype, row-tag tuple, field presence, "
+        "nested/flat without copying} to depth 3 (quick) / 4 (thorough); abstract state = (class, namespace, dtype, row-tag tuple, field presence, "
         "evidence tag); every transition is executed on the implementation and the resulting object compared with the "
         "reference model (list of row tags + presence + carried evidence)")
 ASSUMPTIONS = [
@@ -115,6 +115,7 @@ def enabled(model):
     acts.append(("pickle",))
     acts.append(("dict", "flat"))
     acts.append(("dict", "nested"))
+    acts.append(("dict", "flat-nocopy"))
     return acts
 
 
@@ -164,7 +165,7 @@ def apply(obj, model, action):
             new = pickle.loads(pickle.dumps(obj))
             return new, Model(model.cls, model.ns, model.dt, model.flags, model.tags, model.ev)
         if kind == "dict":
-            d = obj.to_dict(flat=action[1] == "flat")
+            d = obj.to_dict(flat=action[1] != "nested", **({"copy": False} if action[1] == "flat-nocopy" else {}))
             new = type(obj).from_dict(d)
             return new, Model(model.cls, model.ns, model.dt, model.flags, model.tags, model.ev)
     except Exception as e:
